@@ -1,71 +1,102 @@
 package redisemu
 
-import "strings"
-
-func redisGlob(pattern, candidate []rune) bool {
-
+// redisGlob matches candidate against a redis glob pattern, byte by byte: '*', '?',
+// '[abc]', '[^abc]', '[a-z]' and '\' escapes. A nil pattern matches everything.
+func redisGlob(pattern, candidate []byte) bool {
 	if pattern == nil {
 		return true
 	}
 
-	patPos := 0
-	for i := 0; i < len(candidate); i++ {
-		if patPos >= len(pattern) {
-			return false
-		}
-
-		patCh := pattern[patPos]
-		if patCh == '?' {
-			patPos++
-			continue
-		} else if patCh == '*' {
-			patPos++
-			if patPos >= len(pattern) {
+	for len(pattern) > 0 && len(candidate) > 0 {
+		switch pattern[0] {
+		case '*':
+			for len(pattern) > 1 && pattern[1] == '*' {
+				pattern = pattern[1:]
+			}
+			if len(pattern) == 1 {
 				return true
 			}
-
-			for j := i; j < len(candidate); j++ {
-				if redisGlob(pattern[patPos:], candidate[j:]) {
+			for len(candidate) > 0 {
+				if redisGlob(pattern[1:], candidate) {
 					return true
 				}
+				candidate = candidate[1:]
 			}
-
 			return false
-		} else if patCh == '[' {
-			var patSet strings.Builder
-			patPos++
-			for patPos < len(pattern) {
-				letter := pattern[patPos]
-				if letter == ']' {
-					patPos++
+
+		case '?':
+			candidate = candidate[1:]
+
+		case '[':
+			pattern = pattern[1:]
+			not := len(pattern) > 0 && pattern[0] == '^'
+			if not {
+				pattern = pattern[1:]
+			}
+			match := false
+			for {
+				if len(pattern) >= 2 && pattern[0] == '\\' {
+					pattern = pattern[1:]
+					if pattern[0] == candidate[0] {
+						match = true
+					}
+				} else if len(pattern) == 0 {
+					// unterminated class
+					if not {
+						match = !match
+					}
+					return match && len(candidate) == 1
+				} else if pattern[0] == ']' {
 					break
+				} else if len(pattern) >= 3 && pattern[1] == '-' {
+					start := pattern[0]
+					end := pattern[2]
+					if start > end {
+						start, end = end, start
+					}
+					pattern = pattern[2:]
+					if candidate[0] >= start && candidate[0] <= end {
+						match = true
+					}
+				} else if pattern[0] == candidate[0] {
+					match = true
 				}
-				if letter == '\\' && patPos+1 < len(pattern) {
-					patPos++
-				}
-				patSet.WriteRune(pattern[patPos])
-				patPos++
+				pattern = pattern[1:]
 			}
-			if !strings.ContainsRune(patSet.String(), candidate[i]) {
+			if not {
+				match = !match
+			}
+			if !match {
 				return false
 			}
-		} else if patCh == '\\' && patPos+1 < len(pattern) {
-			patPos++
-			if pattern[patPos] != candidate[i] {
+			candidate = candidate[1:]
+
+		case '\\':
+			if len(pattern) >= 2 {
+				pattern = pattern[1:]
+			}
+			fallthrough
+
+		default:
+			if pattern[0] != candidate[0] {
 				return false
 			}
-			patPos++
-		} else {
-			if patCh != candidate[i] {
-				return false
+			candidate = candidate[1:]
+		}
+
+		pattern = pattern[1:]
+		if len(candidate) == 0 {
+			for len(pattern) > 0 && pattern[0] == '*' {
+				pattern = pattern[1:]
 			}
-			patPos++
+			break
 		}
 	}
 
-	for patPos < len(pattern) && pattern[patPos] == '*' {
-		patPos++
+	// trailing stars match an empty remainder (so "*" matches the empty key name)
+	for len(candidate) == 0 && len(pattern) > 0 && pattern[0] == '*' {
+		pattern = pattern[1:]
 	}
 
-	return patPos >= len(pattern)
+	return len(pattern) == 0 && len(candidate) == 0
 }
